@@ -485,7 +485,11 @@ func StepsVGgo(ss []Step) bool {
 }
 
 func (w *worker) checkLog(c *selCase, log *callLog, text, before, kinds string, raw []byte) {
-	w.count("C14:logs-compared", 1)
+	if w.logProp == "" {
+		w.count("C14:logs-compared", 1)
+	} else {
+		w.count(w.logProp+":logs-compared", 1)
+	}
 	exp := map[string][]MV{}
 	for _, l := range c.Res.Log {
 		exp[cps(l.Fn)] = append(exp[cps(l.Fn)], l.Arg)
@@ -524,7 +528,11 @@ func (w *worker) checkLog(c *selCase, log *callLog, text, before, kinds string, 
 			for _, x := range e {
 				es = append(es, snap(x.ToGo(Mode{})))
 			}
-			w.viol("C14", "call-log-differs", text, before, fmt.Sprintf("function %s: want calls %v got %v", name, es, gs), kinds, raw)
+			lp := "C14"
+			if w.logProp != "" {
+				lp = w.logProp
+			}
+			w.viol(lp, "call-log-differs", text, before, fmt.Sprintf("function %s: want calls %v got %v", name, es, gs), kinds, raw)
 			return
 		}
 		w.count("C14:calls", len(g))
@@ -902,19 +910,24 @@ func (w *worker) checkOrder(c *selCase, text, kinds string, raw []byte) {
 	nkeys := len(c.Doc.O)
 	decoyDoc := map[string]interface{}{"q": 1.0, "zz": map[string]interface{}{"y": 1.0, "x": 2.0, "w": 3.0}, "m": 2.0, "b": 3.0, "k": 4.0, "a": 5.0, "\uffff": 6.0}
 	decoy := safeParse("$..*", nil)
-	pr := safeParse(text, nil)
+	shared := c.Doc.HasSharing()
+	olog := &callLog{}
+	ocfg := modelConfig(olog, false)
+	pr := safeParse(text, &ocfg)
 	if pr.Err != nil || pr.Panic != nil {
 		w.viol("C07", "parse-failed", text, "", fmt.Sprintf("%v %v", pr.Err, pr.Panic), kinds, raw)
 		return
 	}
 	for mo := 0; mo < 4; mo++ {
 		for rep := 0; rep < 8; rep++ {
-			m := Mode{MapOrder: mo, Number: rep%2 == 1}
+			// one of the four builds assembles the document from shared parts (equal sub-objects are one Go object)
+			m := Mode{MapOrder: mo, Number: rep%2 == 1, Share: mo == 2 && shared}
 			doc := c.Doc.ToGo(m)
 			f := pr.F
 			if rep >= 4 { // a freshly parsed function as well as a re-used one
-				f = safeParse(text, nil).F
+				f = safeParse(text, &ocfg).F
 			}
+			olog.calls = nil
 			r := safeCall(f, doc)
 			w.count("C07:evaluations", 1)
 			w.count(fmt.Sprintf("C07:evaluations:keys=%d", nkeys), 1)
@@ -927,6 +940,16 @@ func (w *worker) checkOrder(c *selCase, text, kinds string, raw []byte) {
 			if !ok {
 				w.viol("C07", "order-differs", text, snap(doc), fmt.Sprintf("map built with insertion order #%d, evaluation %d: want %s got %s", mo, rep, expString(c.Res), r), fmt.Sprintf("keys=%d", nkeys), raw)
 				return
+			}
+			// functions inside the path see the members in the same order (what they are handed decides what they return)
+			if len(c.Res.Log) > 0 && c.FDet {
+				w.logProp = "C07"
+				before := len(w.res.Viol)
+				w.checkLog(c, olog, text, snap(doc), fmt.Sprintf("keys=%d", nkeys), raw)
+				w.logProp = ""
+				if len(w.res.Viol) > before {
+					return
+				}
 			}
 			// the same order when the results are read through accessors (one accessor per selected member, each
 			// bound to ITS member)
